@@ -25,6 +25,7 @@ import (
 //	R-table-locked      every access to the table holds the table's lock (writes exclusively)
 //	R-foreign-delete    any other function that deletes from the table cancels the record it removes
 //	                    (session termination), and never deletes on a mere write failure of a stream
+//	R-table-lock-free-write  no write to a session's stream happens while the table's lock is held
 //	R-slot-owner        (client) a stream goroutine touches the shared stream slot only while it still owns it
 func init() { Registry["C11"] = checkC11 }
 
@@ -89,6 +90,10 @@ func checkC11(c *Ctx) {
 		c.R.Break("no lock inferred for stream table %s", table)
 		return
 	}
+
+	// R-table-lock-free-write: the table's lock is never held while something is written to a stream
+	streamWriteNotUnder(c, "R-table-lock-free-write", guard, "listening-stream table")
+	c.R.Min("R-table-lock-free-write", 2)
 
 	// per function: inserts (fresh), deletes
 	type fnInfo struct {
